@@ -176,12 +176,26 @@ class Ctx:
         for mod in prop_modules:
             path = os.path.join(LEAN_DIR, mod.replace(".", "/") + ".lean")
             txt = strip_lean_comments(open(path, encoding="utf-8").read())
-            ns = re.search(r"^namespace\s+(\S+)", txt, re.M)
-            prefix = (ns.group(1) + ".") if ns else ""
-            names = re.findall(r"^\s*theorem\s+([^\s:({\[]+)", txt, re.M)
             examples += len(re.findall(r"^\s*example\b", txt, re.M))
             lines.append("import " + mod)
-            theorems += [prefix + n for n in names]
+            # fully qualified theorem names: follow namespace / section nesting
+            stack = []          # (kind, name)
+            for ln in txt.splitlines():
+                m = re.match(r"^\s*(namespace|section)\b\s*(\S*)", ln)
+                if m:
+                    stack.append((m.group(1), m.group(2)))
+                    continue
+                m = re.match(r"^\s*end\b\s*(\S*)\s*$", ln)
+                if m and stack:
+                    stack.pop()
+                    continue
+                m = re.match(r"^\s*(?:protected\s+)?theorem\s+([^\s:({\[]+)", ln)
+                if m:
+                    name = m.group(1)
+                    if name.startswith("_root_."):
+                        theorems.append(name[len("_root_."):])
+                    else:
+                        theorems.append(".".join([n for k, n in stack if k == "namespace" and n] + [name]))
         self.theorems = theorems
         self.obligations = len(theorems) + examples
         if not self.props_ok:
